@@ -1,6 +1,37 @@
 """C05 - entity state equals a last-writer-wins replay of creation and property packets."""
-from tools import common, worldcheck, recordings, gen_const
+import os, random, shutil, tempfile
+from tools import common, worldcheck, recordings, gen_const, battle
 LEVEL = 'proof'
+
+
+def per_version(ctx):
+    """the bundled versions' OWN controllers and definitions (not the synthetic ones): a battle per version with ids that are created, updated and
+    created again, played through the real dialect player; entity table, types, property values and player id against the extracted model"""
+    tmp = tempfile.mkdtemp(prefix='verif-c05-'); rng = ctx.rng
+    try:
+        wv = battle.wows_versions()
+        if ctx.tier == 'quick':
+            # one version per DISTINCT controller source (files that differ in any byte), plus every fifth version
+            import hashlib
+            seen = {}; base = os.path.join(common.REPO, 'replay_unpack', 'clients', 'wows', 'versions')
+            for v in wv: seen.setdefault(hashlib.md5(open(os.path.join(base, v, 'battle_controller.py'), 'rb').read()).hexdigest(), v)
+            picks = sorted(set(seen.values()) | set(wv[::5]) | {wv[-1]})
+        else: picks = wv
+        bad = None
+        for v in picks:
+            p = os.path.join(tmp, v + '.wowsreplay')
+            battle.write_wows(p, v, random.Random(rng.randrange(10 ** 9)), join=False, battle_end=False, recreate=True)
+            r = recordings.run_pair(p)
+            kinds = recordings.KINDS['C05']
+            a = [l for l in r['impl'] if l.startswith(kinds)]; b = [l for l in r['model'] if l.startswith(kinds)]
+            ctx.case(('version-battle', v)); ctx.traces_validated += 1; ctx.count('per-version-battle')
+            d = recordings.first_diff(a, b)
+            if d is not None and bad is None:
+                bad = ctx.violation(dict(kind='version-battle-divergence', version='wows/' + v, index=d[0], implementation=d[1][:300], model=d[2][:300],
+                                         how='tools/battle.write_wows(path, version, rng, recreate=True); tools/recordings.run_pair(path): entity table of the real player vs the extracted model'))
+            os.unlink(p)
+    finally:
+        shutil.rmtree(tmp, ignore_errors=True)
 
 
 def run(ctx):
@@ -11,6 +42,7 @@ def run(ctx):
     gen_const.instance_obligations(ctx, 'C05', which=('tables', 'flags'))
     q = ctx.tier == 'quick'
     worldcheck.run_histories(ctx, 'C05', n_defsets=10 if q else 80, hist_per_set=4, sizes=[40, 120, 300] if q else [40, 120, 300, 800])
+    per_version(ctx)
     recordings.payload_check(ctx, 'C05', quick_n=4)
 
 
